@@ -3,7 +3,7 @@ Line protocol for C09.  One forced schedule per line:
 
   sched <family> seed=<n> | <shared|private> [pre <item>…] | <step> ; <step> ; … | <Thread>=<tx> …
 
-Steps: beginR t · beginW t · access t n · leave t n · read t n i · put t n i · del t n i ·
+Steps: beginR t · beginW t · access t n · cold t n (temporary cold object) · leave t n · read t n i · put t n i · del t n i ·
 backfill t i · end t · commit t · rollback t · finish t · evict n.
 `put t n i` writes a fresh value for item i of index n and the point record of i; `del` removes both.
 The initial disk holds items 1, 2, 3 (and the `pre` items) in index 0, each with a point record.
@@ -28,6 +28,7 @@ def parseStep (ws : List String) : Option (Nat × List Label) :=
   | ["beginR", t] => (nat? t).map fun t => (t, [.beginR t])
   | ["beginW", t] => (nat? t).map fun t => (t, [.beginW t])
   | ["access", t, n] => do let t ← nat? t; let n ← nat? n; pure (t, [.access t n])
+  | ["cold", t, n] => do let t ← nat? t; let n ← nat? n; pure (t, [.accessCold t n])
   | ["leave", t, n] => do let t ← nat? t; let n ← nat? n; pure (t, [.leave t n])
   | ["read", t, n, i] => do let t ← nat? t; let n ← nat? n; let i ← nat? i; pure (t, [.read t n i])
   | ["put", t, n, i] => do
